@@ -277,3 +277,37 @@ def install2(ex):
     ex.ext_models["os.path.join"] = os_join
     ex.ext_models["pint.application_registry.Quantity"] = quantity
     ex.pure_ext |= {"np.load", "os.path.join", "tools.UNITS.Quantity"}
+
+
+# ---------------------------------------------------------------------------------------------
+# pulls: ghost log of requests that reached a source (C13, C02, C20)
+# ---------------------------------------------------------------------------------------------
+PullRec = TTup(TRef("IOutput"), TimeOpt, TOpt(TRef("IInput")))  # (source, time, target)
+PREP = z3.Function("prepare", sv.RealS, sv.IntS, sv.RealS)  # prepare(data, info): payload in the info's units/shape
+SRCVAL = z3.Function("served", sv.IntS, sv.IntS, sv.RealS)  # what the n-th logged pull delivered
+
+
+def schema3(reg):
+    reg.field("$pull_log", TList(PullRec))
+
+
+def pull_log(ctx):
+    return ctx.get(WORLD, "$pull_log")
+
+
+def log_appended(ctx, src, time_sv, target_sv):
+    """the pull log grew by exactly one record (src, time, target)"""
+    l0, l1 = pull_log(ctx.old), pull_log(ctx)
+    i = z3.Int(sv.uid("li"))
+    rec = l1.at(l0.n)
+    return And(l1.n == l0.n + 1,
+               z3.ForAll([i], Implies(And(0 <= i, i < l0.n), sv.value_eq(l1.at(i), l0.at(i)))),
+               sv.value_eq(rec.items[0], src), sv.value_eq(rec.items[1], time_sv), sv.value_eq(rec.items[2], target_sv))
+
+
+def buffers_only_evicted(ctx, but=None):
+    """every buffer is a suffix of what it was (upstream get_data only evicts)"""
+    o = z3.Int(sv.uid("o"))
+    d0, d1 = ctx.old.get(o, "data"), ctx.get(o, "data")
+    body = suffix_of(d1, d0)
+    return z3.ForAll([o], body, patterns=[d1.n])
